@@ -17,6 +17,7 @@ CONSTANTS Inputs,      \* set of inputs (curve, test list, trial list)
           SmallInputs, \* subset with N*M < 100 (inline path)
           NCols,       \* number of columns (tasks of the pool); chunk size 1
           Workers,     \* set of worker counts to try
+          PersistentPool, \* FALSE: a pool is forked inside every call (the code); TRUE: one pool is kept between calls (diagnostic)
           HasInline,   \* FALSE for linform_vector
           MaxCalls,
           MaxFaults
@@ -34,9 +35,11 @@ VARIABLES disk,        \* Inputs -> file state (the key is injective in the inpu
           res,         \* last returned result
           diskAtCall,  \* history: disk when the call started
           ncalls, nfaults,
+          poolin,      \* the input the living pool's workers inherited at fork time (element lists reach the workers only
+                       \* through module globals copied by fork), "none" when no pool is alive
           last         \* last observable event (for replay)
 
-vars == <<disk, pc, cur, cols, pending, finished, nextTask, res, diskAtCall, ncalls, nfaults, last>>
+vars == <<disk, pc, cur, cols, pending, finished, nextTask, res, diskAtCall, ncalls, nfaults, poolin, last>>
 
 Correct(in) == [j \in 1..NCols |-> <<in, j>>]
 NoRes == [in |-> "none"]
@@ -45,7 +48,7 @@ Init ==
   /\ disk = [i \in Inputs |-> Absent]
   /\ pc = "idle" /\ cur = [in |-> "none"]
   /\ cols = <<>> /\ pending = [w \in 1..0 |-> 0] /\ finished = [j \in 1..0 |-> 0] /\ nextTask = 1
-  /\ res = NoRes /\ diskAtCall = disk /\ ncalls = 0 /\ nfaults = 0
+  /\ res = NoRes /\ diskAtCall = disk /\ ncalls = 0 /\ nfaults = 0 /\ poolin = "none"
   /\ last = [ev |-> "init"]
 
 PoolIdle == UNCHANGED <<cols, pending, finished, nextTask>>
@@ -63,6 +66,7 @@ Call(in, mp, w) ==
      ELSE /\ pc' = "tryload" /\ res' = NoRes
           /\ last' = [ev |-> "call", in |-> in, mp |-> mp, w |-> w]
   /\ UNCHANGED <<disk, nfaults>> /\ PoolIdle
+  /\ UNCHANGED poolin
 
 \* np.load inside a bare try/except: only a complete file written for this key is a hit
 TryLoad ==
@@ -77,6 +81,8 @@ TryLoad ==
              THEN /\ pc' = "pool" /\ cols' = <<>> /\ nextTask' = 1
                   /\ pending' = [w \in 1..cur.w |-> 0] /\ finished' = [j \in 1..0 |-> 0]
              ELSE /\ pc' = "serial" /\ PoolIdle
+  \* the workers see the globals of the moment they were forked
+  /\ poolin' = IF disk[cur.in].st # "valid" /\ cur.mp /\ ~(PersistentPool /\ poolin # "none") THEN cur.in ELSE poolin
   /\ UNCHANGED <<disk, cur, diskAtCall, ncalls, nfaults>>
 
 Serial ==
@@ -85,6 +91,7 @@ Serial ==
   /\ pc' = "save"
   /\ last' = [ev |-> "computed"]
   /\ UNCHANGED <<disk, cur, pending, finished, nextTask, res, diskAtCall, ncalls, nfaults>>
+  /\ UNCHANGED poolin
 
 \* pool: workers take the next task, finish in any order; the parent collects in task order (imap)
 WorkerTake(w) ==
@@ -93,21 +100,25 @@ WorkerTake(w) ==
   /\ nextTask' = nextTask + 1
   /\ last' = [ev |-> "take"]
   /\ UNCHANGED <<disk, pc, cur, cols, finished, res, diskAtCall, ncalls, nfaults>>
+  /\ UNCHANGED poolin
 WorkerDone(w) ==
   /\ pc = "pool" /\ w \in DOMAIN pending /\ pending[w] # 0
   /\ finished' = [j \in (DOMAIN finished) \cup {pending[w]} |->
-                    IF j = pending[w] THEN <<cur.in, j>> ELSE finished[j]]
+                    IF j = pending[w] THEN <<poolin, j>> ELSE finished[j]]
   /\ pending' = [pending EXCEPT ![w] = 0]
   /\ last' = [ev |-> "done"]
   /\ UNCHANGED <<disk, pc, cur, cols, nextTask, res, diskAtCall, ncalls, nfaults>>
+  /\ UNCHANGED poolin
 ParentCollect ==
   /\ pc = "pool" /\ Len(cols) < NCols /\ (Len(cols) + 1) \in DOMAIN finished
   /\ cols' = Append(cols, finished[Len(cols) + 1])          \* mat[:, j] = col, j in task order
   /\ last' = [ev |-> "collect"]
   /\ UNCHANGED <<disk, pc, cur, pending, finished, nextTask, res, diskAtCall, ncalls, nfaults>>
+  /\ UNCHANGED poolin
 PoolFinish ==
   /\ pc = "pool" /\ Len(cols) = NCols
   /\ pc' = "save"
+  /\ poolin' = IF PersistentPool THEN poolin ELSE "none"        \* the per-call pool is gone with the call
   /\ last' = [ev |-> "computed"]
   /\ UNCHANGED <<disk, cur, cols, pending, finished, nextTask, res, diskAtCall, ncalls, nfaults>>
 
@@ -118,6 +129,7 @@ SaveBegin ==
   /\ pc' = "saving"
   /\ last' = [ev |-> "savebegin"]
   /\ UNCHANGED <<cur, cols, pending, finished, nextTask, res, diskAtCall, ncalls, nfaults>>
+  /\ UNCHANGED poolin
 SaveEnd ==
   /\ pc = "saving"
   /\ disk' = [disk EXCEPT ![cur.in] = [st |-> "valid", owner |-> cur.in]]
@@ -125,12 +137,14 @@ SaveEnd ==
   /\ pc' = "idle"
   /\ last' = [ev |-> "return", in |-> cur.in, mp |-> cur.mp, w |-> cur.w, path |-> IF cur.mp THEN "pool" ELSE "serial"]
   /\ UNCHANGED <<cur, cols, pending, finished, nextTask, diskAtCall, ncalls, nfaults>>
+  /\ UNCHANGED poolin
 Crash(kind) ==
   /\ pc = "saving" /\ nfaults < MaxFaults
   /\ disk' = [disk EXCEPT ![cur.in] = [st |-> kind, owner |-> cur.in]]
   /\ res' = NoRes /\ pc' = "idle" /\ nfaults' = nfaults + 1
   /\ last' = [ev |-> "crash", in |-> cur.in, kind |-> kind, mp |-> cur.mp, w |-> cur.w]
   /\ UNCHANGED <<cur, cols, pending, finished, nextTask, diskAtCall, ncalls>>
+  /\ UNCHANGED poolin
 
 \* environment between calls
 Truncate(i, kind) ==
@@ -139,12 +153,14 @@ Truncate(i, kind) ==
   /\ nfaults' = nfaults + 1
   /\ last' = [ev |-> "truncate", in |-> i, kind |-> kind]
   /\ UNCHANGED <<pc, cur, cols, pending, finished, nextTask, res, diskAtCall, ncalls>>
+  /\ UNCHANGED poolin
 Delete(i) ==
   /\ pc = "idle" /\ nfaults < MaxFaults /\ disk[i].st # "absent"
   /\ disk' = [disk EXCEPT ![i] = Absent]
   /\ nfaults' = nfaults + 1
   /\ last' = [ev |-> "delete", in |-> i]
   /\ UNCHANGED <<pc, cur, cols, pending, finished, nextTask, res, diskAtCall, ncalls>>
+  /\ UNCHANGED poolin
 
 SomeWorkerTakes == \E w \in DOMAIN pending : WorkerTake(w)
 SomeWorkerDone == \E w \in DOMAIN pending : WorkerDone(w)
